@@ -52,6 +52,15 @@ class FakeOS:
         w = self.w
         if w.lost or fd != w.fd:
             raise OSError(5, "device gone")
+        drv = getattr(w, "driver", None)
+        if drv is not None and drv.connected.is_set():
+            w.nwrites = getattr(w, "nwrites", 0) + 1
+        if getattr(w, "fail_write_at", None) is not None and getattr(w, "fail_write_at", None) == getattr(w, "nwrites", 0) and drv.connected.is_set():
+            w.fail_write_at = None
+            # the gateway vanishes at exactly this write (command writes are counted: those made while the driver is connected)
+            w.trace.append("fault:loss")
+            w._lose()
+            raise OSError(19, "No such device")
         w.gateway.on_write(bytes(data))
         return len(data)
 
